@@ -17,6 +17,7 @@ import (
 	"net/http"
 	"os"
 	"path/filepath"
+	"strings"
 	"sync"
 	"sync/atomic"
 	"testing"
@@ -46,6 +47,8 @@ type env struct {
 	mode   string
 	held   []chan string // requests stalled by the bucket; released with the mode that ends the stall
 	notes  []string
+	scanDir string
+	scans   int
 }
 
 func (e *env) t() int64 { return time.Since(e.start).Milliseconds() }
@@ -69,6 +72,9 @@ func (e *env) Do(req *http.Request) (*http.Response, error) {
 		e.note("unexpected %s request to the bucket: %s", req.Method, req.URL)
 	}
 	e.log(Event{"ev": "ubegin", "sha": sum(body), "len": len(body), "key": req.URL.Path})
+	if e.scanDir != "" {
+		e.scan("while an upload is in flight")
+	}
 	e.mu.Lock()
 	mode := e.mode
 	var ch chan string
@@ -103,6 +109,27 @@ func (e *env) Do(req *http.Request) (*http.Response, error) {
 	}
 	e.log(Event{"ev": "uend", "ok": "f", "why": "500"})
 	return resp(500, `<?xml version="1.0"?><Error><Code>InternalError</Code><Message>scripted</Message></Error>`), nil
+}
+
+// scan: the state directory holds the database file and nothing else readable by others (C05).
+func (e *env) scan(when string) {
+	filepath.Walk(e.scanDir, func(p string, fi os.FileInfo, err error) error {
+		if err != nil || fi.IsDir() {
+			return nil
+		}
+		e.scans++
+		if fi.Mode().Perm() != 0o600 {
+			e.note("%s the state directory holds %s with mode %o", when, filepath.Base(p), fi.Mode().Perm())
+		}
+		if filepath.Base(p) != "state.db" && !strings.HasPrefix(filepath.Base(p), "state.db") {
+			e.note("%s the state directory holds an extra file %s", when, filepath.Base(p))
+		} else if filepath.Base(p) != "state.db" {
+			if b, _ := os.ReadFile(p); len(b) > 0 && !strings.Contains(filepath.Base(p), ".tmp") {
+				e.note("%s the state directory holds a copy of the database: %s (mode %o)", when, filepath.Base(p), fi.Mode().Perm())
+			}
+		}
+		return nil
+	})
 }
 
 func (e *env) setMode(m string) {
@@ -142,7 +169,16 @@ func timeline(t *testing.T, r *rand.Rand, dir string, steps int) ([]Event, []str
 		if err != nil {
 			t.Fatal(err)
 		}
-		e := &env{start: time.Now(), mode: "ok"}
+		if r.Intn(2) == 0 {
+			// the server starts on a database file left by an earlier process (which may never have uploaded it)
+			if _, err := d.Put(db.Caller{Principal: audit.Principal{User: "earlier"}, Permissions: allRules()}, "k0", []byte("from an earlier process")); err != nil {
+				t.Fatal(err)
+			}
+			if d, err = db.Open(filepath.Join(dir, "state.db"), vault.SharedKEK(), audit.New(io.Discard)); err != nil {
+				t.Fatal(err)
+			}
+		}
+		e := &env{start: time.Now(), mode: "ok", scanDir: dir}
 		file := func() []byte { b, _ := os.ReadFile(d.Path()); return b }
 		gen0 := d.WriteGen()
 		e.log(Event{"ev": "reset", "sha": sum(file())})
@@ -188,6 +224,7 @@ func timeline(t *testing.T, r *rand.Rand, dir string, steps int) ([]Event, []str
 			progress.Add(1)
 		}
 		synctest.Wait()
+		e.scan("at the end of the timeline (after failed and successful uploads)")
 		e.log(Event{"ev": "end"})
 		e.mu.Lock()
 		evs = append(evs, e.events...)
